@@ -7,12 +7,12 @@ git checkout -q -- . ; git apply $MD/patch.diff || { echo "PATCH DOES NOT APPLY"
 make -C src -j8 >/dev/null 2>$MD/confirm_build.err || { echo "BUILD FAILED"; git checkout -q -- .; exit 2; }
 mpicc -g -I$WT/src/include -o $MD/demo_mut $MD/demo.c $WT/src/libs/.libs/libpnetcdf.a -lm || { echo DEMO BUILD FAILED; }
 mkdir -p $MD/scratch
-( cd $MD/scratch && timeout 120 mpiexec --allow-run-as-root --oversubscribe -n $NP $MD/demo_mut $MD/scratch/t.nc > $MD/confirm_demo_mut.out 2>&1 ); RC_MUT=$?
+( cd $MD/scratch && timeout 600 mpiexec --allow-run-as-root --oversubscribe -n $NP $MD/demo_mut $MD/scratch/t.nc > $MD/confirm_demo_mut.out 2>&1 ); RC_MUT=$?
 find . -name '*.trs' -delete; make -k check -j8 > $MD/confirm_check.log 2>&1
 SUITE=$(grep -h ':test-result:' $(find . -name '*.trs') | sort | uniq -c | tr '\n' ' ')
 git checkout -q -- .
 make -C src -j8 >/dev/null 2>&1
 mpicc -g -I$WT/src/include -o $MD/demo_base $MD/demo.c $WT/src/libs/.libs/libpnetcdf.a -lm
-( cd $MD/scratch && timeout 120 mpiexec --allow-run-as-root --oversubscribe -n $NP $MD/demo_base $MD/scratch/t.nc > $MD/confirm_demo_base.out 2>&1 ); RC_BASE=$?
+( cd $MD/scratch && timeout 600 mpiexec --allow-run-as-root --oversubscribe -n $NP $MD/demo_base $MD/scratch/t.nc > $MD/confirm_demo_base.out 2>&1 ); RC_BASE=$?
 rm -rf $MD/scratch $MD/demo_mut $MD/demo_base
 echo "CONFIRM $MD: suite_with_change=[$SUITE] demo_with_change_rc=$RC_MUT demo_without_change_rc=$RC_BASE"
